@@ -12,6 +12,7 @@ import (
 	"encoding/binary"
 	"encoding/gob"
 	"fmt"
+	"io"
 	"os"
 	"path/filepath"
 	"reflect"
@@ -60,6 +61,7 @@ const (
 	dDecryptFrame  = 18
 	dJSONRegs      = 19
 	dParseACMAfter = 21 // tools.ParseACM; the model gets Header.GetModuleSubType(), UserArea and the serialised module from dACMSplit
+	dReplay        = 22 // tpmeventlog.Replay; aux = [pcr index, algorithm, writer (0 nil, 1 a writer, 2 a failing writer), source (0: In1 = events as replay.go/encodeEvents writes them, 1: In1 = binary log for tpmeventlog.Parse)]
 	dLocalFiles    = 20 // tpmdetection.local with a missing device / capability file (aux[0]: bit 0 device missing, bit 1 caps missing)
 
 	dParseACM     = 101
@@ -81,7 +83,7 @@ var decoderNames = map[int]string{
 	dLocalCaps: "tpmdetection.local", dBytesRange: "check.BytesRange", dDecryptFrame: "bootguard.DecryptPrivKey",
 	dJSONRegs: "registers.Registers.UnmarshalJSON", dParseACM: "tools.ParseACM", dYAMLRegs: "registers.Registers.UnmarshalYAML",
 	dRegistersNew: "registers.New", dIFD: "tools.CalcImageOffset/GetRegion", dEventLog: "tpmeventlog.Parse",
-	dLocalFiles: "tpmdetection.local(files)", dReadPubKey: "bootguard.ReadPubKey", dIFDParts: "tools.GetRegion/CalcImageOffset(parts)", dParseACMAfter: "tools.ParseACM(after fiano)",
+	dReplay: "tpmeventlog.Replay", dLocalFiles: "tpmdetection.local(files)", dReadPubKey: "bootguard.ReadPubKey", dIFDParts: "tools.GetRegion/CalcImageOffset(parts)", dParseACMAfter: "tools.ParseACM(after fiano)",
 }
 
 type request struct {
@@ -683,6 +685,34 @@ func call(req request, rep *reply) (run func() (func(*zs), error), skip bool) {
 				binary.LittleEndian.PutUint64(rep.Extra1[8*i:], x)
 			}
 			return func(z *zs) {}, nil
+		}, false
+	case dReplay:
+		var l *tpmeventlog.TPMEventLog
+		if aux(3) == 1 {
+			// the route of the bytes: a binary log, parsed by the repository's own Parse (go-attestation behind it)
+			parsed, err := tpmeventlog.Parse(bytes.NewReader(in1))
+			if err != nil || parsed == nil {
+				return nil, true
+			}
+			l = parsed
+			rep.Extra1 = encodeLog(l)
+		} else {
+			evs, ok := decodeEvents(in1)
+			if !ok {
+				return nil, true
+			}
+			l = buildLog(evs)
+		}
+		var logOut io.Writer // nil: the writer is optional
+		switch aux(2) {
+		case 1:
+			logOut = &sinkWriter{}
+		case 2:
+			logOut = failingWriter{}
+		}
+		return func() (func(*zs), error) {
+			v, err := tpmeventlog.Replay(l, pcr.ID(aux(0)), tpmeventlog.TPMAlgorithm(aux(1)), logOut)
+			return func(z *zs) { z.bs(v) }, err
 		}, false
 	case dEventLog:
 		return func() (func(*zs), error) {
